@@ -8,6 +8,7 @@ use vstd::arithmetic::div_mod::*;
 use vstd::bits::*;
 verus! {
 //@ include lib/base.rs
+//@ include lib/lvlow.rs
 
 //@ extract src/lib.rs struct Uint
 pub struct Uint<const BITS: usize, const LIMBS: usize> { pub
